@@ -3,6 +3,12 @@
 import json
 PROPS = [json.loads(l) for l in open('/verif/properties.jsonl')]
 CLAIMED = {
+ "C05": dict(
+    category="proof",
+    text="Coq theorems: C05_dims / C05_shape (each returned array has one dimension per dependent array axis, in increasing array-axis order, of the axis length, +1 for corners), C05_entries (for ANY WCS with a sound correlation matrix every entry equals the WCS value at the centre / corner of any element with those coordinates on the correlated axes: the zeros injected outside the block and index 0 on same-block-uncorrelated axes are harmless), C05_selection / C05_int_axis (the world axes returned are exactly those correlated with a requested array axis or uniquely named by a substring, once each, in world order; anything else refuses). Tied to /repo by an exact correspondence check over every correlation structure up to 3x3 (+ sampled 4x4) realised by integer probe WCS with distinct weights on non-cubic shapes, for wcs / extra_coords / combined_wcs, both corner settings, grouped two-component objects, and a full-grid direct oracle incl. TAN / rotated FITS families and the high-level form (classes, order, numeric agreement).",
+    design_ref="DESIGN.md §5.5",
+    note="Trusted: Coq kernel + VM; Model/M_WorldCoords.v transcription; _split_matrix (component) and values_to_high_level_objects (objects_for) are astropy dependencies validated by the same run; corr_sound is an explicit premise; extra-coord corners fall outside lookup tables (NaN) and are left to the oracle; gWCS primary WCS not generated.",
+    technique="Coq proof over hand-written Gallina model + vm_compute correspondence check (exhaustive small correlation structures)"),
  "C03": dict(
     category="proof",
     text="Coq theorems: C03_value (for ANY inner WCS with a sound correlation matrix the value listed for a dropped world coordinate is the value every element of the sliced cube had for it in the original cube), C03_agree_on_correlated (its key lemma: positions that agree on the correlated axes give the same value), C03_wcs_drops_accumulate / C03_extra_drops_accumulate (once dropped, always dropped under any further slice), C03_user_coords (after ANY interleaving of add / remove / slice the user coordinates are exactly the replay of the accepted adds and removes; refused operations change nothing). Tied to /repo by histories of <=5 operations compared against the model (raise bits, user coords, dropped wcs and extra coordinates with values; slices go through the C01 and C02 models) and a direct oracle incl. coupled celestial pairs.",
